@@ -152,6 +152,15 @@ def c17_points(res, pts):
         res.count("leaf_points_re_evaluated_in_another_call_order")
         if len(res.failures) > nf0 + 20:
             break
+    # under process-wide settings an application may have changed (decimal precision 5, warnings as errors, reseeded random module): the
+    # functions are functions of (x, t) alone
+    with core.odd_ambient():
+        for k, (x, t, ex, phix) in enumerate(rows[:: max(1, len(rows) // 600)]):
+            c17_point(res, x, t, ex, phix)
+            res.traces -= 1
+            res.count("leaf_points_under_odd_ambient_settings")
+            if len(res.failures) > nf0 + 20:
+                break
     # one function at a time, ascending and then descending in x - t (a guard position or a table remembered from earlier calls of the
     # SAME function must not change a later answer either)
     asc = sorted(rows, key=lambda r: (r[0] - r[1], r[1]))
